@@ -686,6 +686,72 @@ def fold_stage(ctx, exe, d, cases, label):
     ctx.note("stage %s: %d SREs (%d without non-greedy operators), %.1fs" % (label, len(cases), len(keep), time.time() - t0))
 
 
+def anchor_stage(ctx, exe, d, strs):
+    """K-inner: the seven position predicates of regexp.scm (match/bos .. match/nwb, reached through the module environment)
+    against the SPEC's anchor_ok at every position of every string"""
+    names = ["bos", "eos", "bol", "eol", "bow", "eow", "nwb"]
+    strs = sorted(set(strs))
+    with tempfile.NamedTemporaryFile("w", suffix=".c20", dir=B.SCRATCH, delete=False) as fh:
+        fh.write("(0 anchors%s)\n" % "".join(" " + str_scm(s) for s in strs))
+        path = fh.name
+    try:
+        p = B.run_chibi(d, [DRIVER, path], timeout=600)
+    finally:
+        os.unlink(path)
+    line = [l for l in p.stdout.split("\n") if l.startswith("0 ")]
+    if not line or not line[0].startswith("0 A "):
+        ctx.broken("inner-correspondence:anchor-predicates", "match/bos .. match/nwb could not be called in (chibi regexp): %s %s" % (line[:1], p.stderr[-300:]))
+        return
+    ires = line[0].split(" ")[2:]
+    mres = ctx.run_model(exe, ["A " + " | ".join(sfield(s) for s in strs)])[0].split(" ")
+    if len(ires) != len(strs) or len(mres) != len(strs):
+        ctx.broken("inner-correspondence:anchor-predicates", "answers for %d/%d of %d strings" % (len(ires), len(mres), len(strs)))
+        return
+    for s, i, m in zip(strs, ires, mres):
+        ctx.count(1, key=("anchors", s), nontrivial=len(s) >= 1)
+        ctx.cov["traces_validated_against_impl"] += 1
+        if i != m:
+            for pos, (bi, bm) in enumerate(zip(i.split(","), m.split(","))):
+                for k, (x, y) in enumerate(zip(bi, bm)):
+                    if x != y:
+                        ctx.violation("anchor-predicate:match/%s" % names[k], input=dict(string=str_scm(s), position=pos), observed=x, expected=y,
+                                      replay=replay_cmd(('anc', names[k]), s, "regexp-search"))
+    ctx.sample(dict(kind="anchor-predicates", string=str_scm(strs[-1]), impl=ires[-1], model=mres[-1]))
+
+
+def reps_stage(ctx, exe, d, maxfrom, maxto):
+    """K-inner: sre-expand-reps of regexp.scm (through the module environment) against the model's expand_reps (whose language is
+    proved in expand_reps_language), for every from <= maxfrom and to in from..maxto or unbounded"""
+    pairs = [(f, t) for f in range(maxfrom + 1) for t in list(range(f, maxto + 1)) + [None]]
+    with tempfile.NamedTemporaryFile("w", suffix=".c20", dir=B.SCRATCH, delete=False) as fh:
+        fh.write("(0 reps%s)\n" % "".join(" (%d %s)" % (f, "#f" if t is None else t) for f, t in pairs))
+        path = fh.name
+    try:
+        p = B.run_chibi(d, [DRIVER, path], timeout=300)
+    finally:
+        os.unlink(path)
+    line = [l for l in p.stdout.split("\n") if l.startswith("0 ")]
+    if not line or not line[0].startswith("0 X "):
+        ctx.broken("inner-correspondence:sre-expand-reps", "sre-expand-reps could not be called in (chibi regexp): %s %s" % (line[:1], p.stderr[-300:]))
+        return
+    ires = line[0].split(" ")[2:]
+    mres = ctx.run_model(exe, ["X %d %s" % (f, "i" if t is None else t) for f, t in pairs])
+    for (f, t), i, m in zip(pairs, ires, mres):
+        ctx.count(1, key=("reps", f, t), nontrivial=True)
+        ctx.cov["traces_validated_against_impl"] += 1
+        if i != m:
+            # the model's shape has the right language (theorem); judge the implementation's shape by counting what it admits
+            lo = sum(1 for ch in i if ch in "cC")
+            hi = None if "S" in i else lo + sum(1 for ch in i if ch in "oO")
+            if i.startswith("!") or "?" in i or lo != f or hi != t:
+                sre = ('rep', '=' if t == f else ('>=' if t is None else '**'), True, f, t, ('chr', ('c', A_)))
+                ctx.violation("sre-expand-reps:wrong-repetition-count", input=dict(from_=f, to=t), observed=i, expected=m,
+                              replay=replay_cmd(sre, (A_,) * (f + 1), "regexp-matches"))
+            else:
+                ctx.broken("inner-correspondence:sre-expand-reps", "from=%s to=%s: code expands to %s, model to %s (same repetition counts)" % (f, t, i, m))
+    ctx.sample(dict(kind="sre-expand-reps", from_to=pairs[-2], impl=ires[-2], model=mres[-2]))
+
+
 def char_stage(ctx, exe, d, cps):
     """character-level functions on every code point the run uses: the model's [fold] must induce exactly the
     pattern-char -> subject-char relation that char-set-ci (upcase/downcase closure) induces, and [is_word] must be
@@ -799,7 +865,7 @@ def run(ctx):
     go(cases, "slice-depth2-full")
     # -------------------------------------------------------------- random deep SREs
     cases = []
-    for _ in range(10000 if T else 400):
+    for _ in range(20000 if T else 400):
         alpha = rng.choice([[A_, B_, C_], [A_, B_, NL], [A_, B_, UA, NL], [A_, UA, B_, 0x20]])
         r = rand_sre(rng, alpha, rng.choice([2, 3, 3, 4, 4, 5]))
         cases.append((r, rand_strings(rng, alpha, 10 if T else 8, 12)))
@@ -808,7 +874,7 @@ def run(ctx):
     ualpha = [UNI["latin1"][0], UNI["latin1"][1], UNI["greek"][0], UNI["greek"][1], UNI["cyr"][0], UNI["cyr"][1], UNI["cyr2"][0], UNI["cyr2"][1],
               UNI["deseret"][0], UNI["deseret"][1], UNI["cjk"], A_, UA, UNI["digit"], UNI["under"], UNI["space"], NL]
     cases = []
-    for _ in range(3000 if T else 150):
+    for _ in range(6000 if T else 150):
         alpha = rng.sample(ualpha, 4)
         r = rand_sre(rng, alpha, rng.choice([1, 2, 3]))
         if rng.random() < 0.6:
@@ -828,6 +894,12 @@ def run(ctx):
         used.update(cps_of(r))
         for s, _, _ in xs:
             used.update(s)
+    for r in (full1 if T else rng.sample(full1, 200)):
+        xs = []
+        for s in rng.sample(strs3, 6 if T else 4):
+            a = rng.randrange(0, len(s) + 1)
+            xs.append((s, a, rng.randrange(a, len(s) + 1)))
+        rcases.append((tame(r), xs))
     t0 = time.time()
     compare(ctx, exe, d, rcases, "start-end-arguments", ranged=True)
     ctx.note("stage start-end-arguments: %d SREs, %d calls, %.1fs" % (len(rcases), sum(len(x[1]) for x in rcases), time.time() - t0))
@@ -843,15 +915,23 @@ def run(ctx):
         for s in strs:
             used.update(s)
     fold_stage(ctx, exe, d, fcases, "fold-family")
+    # -------------------------------------------------------------- function level: anchor predicates
+    astrs = list(strs3) + rand_strings(rng, ualpha, 2000 if T else 200, 8) + rand_strings(rng, [A_, UNI["under"], UNI["digit"], 0x20, NL, 0x2d], 2000 if T else 200, 8)
+    anchor_stage(ctx, exe, d, astrs)
+    reps_stage(ctx, exe, d, 6 if T else 4, 9 if T else 6)
+    for x in astrs:
+        used.update(x)
     char_stage(ctx, exe, d, used)
-    ctx.assume("SRE subset: literals, strings, char sets (/ or and ~ - any w/nocase w/case), seq, or, * + ? *? ?? ** **? = >=, $, bos eos bol eol bow eow nwb, "
-               "w/nocase w/case; named submatches, submatch lists, look-around, word/grapheme classes, named char classes, w/ascii, w/nocapture, "
-               "backreferences and the PCRE string syntax are outside the model")
+    ctx.assume("SRE subset: literals, strings, char sets (/ or and ~ - any w/nocase w/case), seq, or, * + ? *? ?? ** **? = >= and their long names, "
+               "$ / submatch, -> (named submatch, by number only), w/nocapture, word, bos eos bol eol bow eow nwb, w/nocase w/case; submatch lists, look-around, "
+               "word+, grapheme, named char classes, w/ascii, backreferences and the PCRE string syntax are outside the model")
     ctx.assume("characters are drawn from the modelled universe (ASCII, Latin-1 letters, Greek, Cyrillic, Deseret, one CJK ideograph); on it the model's "
                "simple case folding and chibi's upcase/downcase closure are checked to induce the same relation (characters such as U+03C2, U+00B5, U+00FF whose "
                "case relatives leave the universe are excluded)")
-    ctx.assume("(** m n) with n < m is not compared (SRFI 115 requires m <= n); which iteration a submatch under a repetition reports is not "
-               "compared (unspecified), only that its span is valid")
+    ctx.assume("not compared (SRFI 115 leaves it open): (** m n) with n < m; complement / difference / intersection of char sets under w/nocase; which iteration a "
+               "submatch under a repetition reports (only that its span is valid); for SREs with non-greedy operators the length of the match (only its start, its "
+               "validity and, for regexp-matches, that it covers the string); the regexp-fold family only for SREs without non-greedy operators; empty matches of regexp-fold "
+               "are compared as the repaired code produces them")
     ctx.trust("harness/c20_driver.scm (reads cases, prints spans), the renderers proto()/scm() in props/C20.py that print one SRE in the model's and in Scheme's syntax")
 
 
